@@ -228,7 +228,9 @@ pub fn run(args: &Args, rep: &mut Report) {
     let (shard, nshards) = args.shard();
     let thorough = args.str("tier", "quick") == "thorough";
     let bases = bases();
-    let only = args.get("only-case").map(|s| s.to_string());
+    let only_raw = args.get("only-case").map(|s| s.to_string());
+    let planted_only = only_raw.as_ref().map_or(false, |o| o.contains("+target-sector-planted"));
+    let only = only_raw.map(|o| o.replace("+target-sector-planted", ""));
     let mut case_no: u64 = 0;
     let mut rng = Rng::derive(seed, 0xC07, shard);
     // ---- single-field sweeps
@@ -272,7 +274,27 @@ pub fn run(args: &Args, rep: &mut Report) {
                     if !strict && only.is_none() && f.width == 2 && v % 16 != 3 {
                         continue;
                     }
-                    judge_mount(rep, args, bname, &what, &img, strict, J::Null);
+                    if !planted_only {
+                        judge_mount(rep, args, bname, &what, &img, strict, J::Null);
+                    }
+                }
+                // a pointer to the information / backup sector is only followed when that sector looks right: give
+                // the target sector the expected content so that the range check, not the signature check, decides
+                if is32 && (only.is_none() || planted_only) && (f.name == "fs_info_sector" || f.name == "backup_boot_sector") && v > 0 {
+                    let bps = u64::from(base.u16(11));
+                    let src = if f.name == "fs_info_sector" { u64::from(base.u16(48)) } else { 0 };
+                    let dst = u64::from(v) * bps;
+                    if dst + 512 <= img.len() && u64::from(v) != src {
+                        let sector = base.bytes(src * bps, 512);
+                        let mut img2 = img.clone();
+                        img2.write(dst, &sector);
+                        if f.name == "backup_boot_sector" {
+                            // the copy describes the same (edited) volume
+                            let head = img.bytes(0, 512);
+                            img2.write(dst, &head);
+                        }
+                        judge_mount(rep, args, bname, &format!("{}+target-sector-planted", what), &img2, true, J::Null);
+                    }
                 }
             }
         }
